@@ -126,12 +126,12 @@ Definition table := list (Z * nkind).
 Definition tlookup (t : table) (u : Z) : option nkind :=
   match find (fun p => fst p =? u) t with Some p => Some (snd p) | None => None end.
 
-(* Node._from_protobuf: a cached node of another class is a DeserializationError; a cached node of the same class
-   would be reused (the node is then moved, not decoded) -- that merge is outside this model: EImpossible *)
+(* Node._from_protobuf: every node is defined once; a UUID that already names a decoded node -- of whatever class --
+   is a DeserializationError *)
 Definition fresh (t : table) (u : Z) (k : nkind) : res unit :=
   match tlookup t u with
   | None => Ok tt
-  | Some k' => if nkind_eqb k' k then Err EImpossible else Err EDeser
+  | Some _ => Err EDeser
   end.
 
 Fixpoint dedup_z (l : list Z) : list Z :=
